@@ -90,6 +90,10 @@ InShapes == {<<>>, <<2>>, <<3>>, <<1, 2>>, <<2, 2>>, <<2, 1, 2>>}
 OutShapes == {<<>>, <<2>>, <<1>>, <<2, 1>>, <<1, 1>>, <<1, 2, 2>>}
 \* how the differentiated argument is selected and what else is passed:
 \*   pos = position of x among npos positional arguments; kw = a keyword argument is passed too; argform = "int" | "kwname"
-Layouts == {[npos |-> np, pos |-> p, kw |-> k] : np \in 1..3, p \in 0..2, k \in BOOLEAN} \cap [npos : 1..3, pos : 0..2, kw : BOOLEAN]
+\*   neg = the differentiated argument is selected by a NEGATIVE argnum (pos - npos), as Python sequences allow
+Layouts == {[npos |-> np, pos |-> p, kw |-> k, neg |-> ng] : np \in 1..3, p \in 0..2, k \in BOOLEAN, ng \in BOOLEAN}
 ValidLayout(l) == l.pos < l.npos
+\* operators whose call takes exactly the function's own arguments (a negative argnum then means the same position everywhere)
+NegOps == {"jacobian", "grad", "elementwise_grad", "hessian", "make_vjp", "make_jvp", "value_and_grad", "deriv", "jacobian_of_jacobian",
+           "grad_and_aux", "holomorphic_grad", "make_jvp_reversemode", "make_hvp"}
 =============================================================================
